@@ -10,6 +10,10 @@ entailment, lib/mx/absint.py) keep the value inside the target range; counts of 
 assumption A1.  The dominating guards are branch conditions whose other arm leaves the function (error return) or Assert
 terminators that C12 discharges; a cast protected only by the always-on invariant macro (a panic) stays open here.
 Everything else is a violation unless exactly listed as a known finding.
+  R6 clipping instead of rejecting: a value that reaches a narrowing cast, a `to_be_bytes` serialisation or a field of a sample
+     record through `min`/`max`/`clamp`/`saturating_*`/`wrapping_*` or through `unwrap_or*` applied to an integer
+     `try_from`/`checked_*` is *clipped*, not guarded: the clip counts as a discharge only when it is a no-op (the unclipped operand
+     is already inside the range); integer `try_from`/`try_into` results must propagate their failure.
 Not decided: that the *wide* value is the mathematically right one (C01-C03, C08 own the formulas); rounding of f64 ticks."""
 from .. import absint as A
 from .. import mir, sym
@@ -23,6 +27,61 @@ TRUSTED = ["absint entailment engine", "interval rules for bit operations"]
 ASSUMPTIONS = ["64-bit usize", "A1: fewer than 2^32 - 1 samples per track / entries per table / fragments per muxer (record counts, not byte lengths)"]
 
 BYTE_ELEMS = ("u8",)
+
+
+import re as _re
+
+_CLIP_NUM = _re.compile(r"core::num::(<impl [iu](8|16|32|64|128|size)>::)?(saturating_|wrapping_|overflowing_)[a-z_]+$")
+_CLIP_ORD = _re.compile(r"(std|core)::cmp::(Ord::)?(min|max|clamp)$")
+_FALLIBLE = _re.compile(r"(::checked_[a-z_]+$|TryFrom<.*>>::try_from$|TryInto<.*>>::try_into$|::try_from$|::try_into$)")
+_UNWRAP_OR = _re.compile(r"(Option|Result)::(<.*>::)?(unwrap_or|unwrap_or_default|unwrap_or_else|map_or|map_or_else)$")
+_INT_TRY = _re.compile(r"<[iu](8|16|32|64|128|size) as (std|core)::convert::Try(From|Into)<[iu](8|16|32|64|128|size)>>::try_(from|into)$")
+
+# clipping operations that are not numeric container fields (one named function each, with the reason)
+R6_NOT_A_FIELD = {
+    "muxer::mp4::encode_language_code": "ISO-639 letter packing: `c.saturating_sub(0x60) & 0x1F` is the 5-bit letter code; C18.R4 tabulates the whole table",
+    "fragmented::encode_language_code": "ISO-639 letter packing (fragmented twin); C18.R4 tabulates the whole table",
+}
+
+
+def clip_terms(e):
+    """sub-terms of e that clip a value: (description, term, unclipped operand)"""
+    out = []
+    for t in sym.walk(e):
+        if not (isinstance(t, tuple) and t and t[0] == "call" and isinstance(t[1], str)):
+            continue
+        nm = t[1]
+        args = t[2] or ()
+        if _CLIP_NUM.search(nm) or _CLIP_ORD.search(nm):
+            out.append((nm.split("::")[-1], t, args[0] if args else None))
+        elif _UNWRAP_OR.search(nm) and args:
+            inner = [x for x in sym.walk(args[0]) if isinstance(x, tuple) and x and x[0] == "call" and isinstance(x[1], str) and _FALLIBLE.search(x[1])]
+            if inner:
+                out.append(("%s(%s)" % (nm.split("::")[-1], inner[0][1].split("::")[-1]), t, (inner[0][2] or (None,))[0]))
+    return out
+
+
+def _subst(e, old, new):
+    if e is old or e == old:
+        return new
+    if isinstance(e, tuple):
+        return tuple(_subst(x, old, new) for x in e)
+    if isinstance(e, list):
+        return [_subst(x, old, new) for x in e]
+    return e
+
+
+def sample_record_fields(u):
+    """field names of the crate structs that hold one queued sample (they own a `data: Vec<u8>` payload)"""
+    names, structs = set(), set()
+    for path, adt in u.adts.items():
+        if adt.get("kind") != "Struct":
+            continue
+        fs = adt["variants"][0]["fields"]
+        if any(f["name"] == "data" and f["ty"].startswith("std::vec::Vec<u8") for f in fs):
+            structs.add(path.split("::")[-1])
+            names |= {f["name"] for f in fs if f["name"] != "data"}
+    return structs, names
 
 
 def _kname(fn):
@@ -202,6 +261,7 @@ def check(prog, run):
         c11.tfdt_rule(common.Ctx(prog), prog.lib, run, "R5", strict=True)
     except Exception as e:
         run.bad("R5", "anchor flush_segment", "cannot derive the base decode time (fail closed): %s" % e)
+    run.rule("R6", "no value is clipped on its way into a field: min/max/clamp/saturating/wrapping or unwrap_or over try_from/checked_* feeding a narrowing cast, a to_be_bytes serialisation or a sample-record field must be a no-op; integer try_from failures are not swallowed")
     u = prog.lib
     g = mir.Graph(u)
     st = mir.Stores(g)
@@ -213,6 +273,7 @@ def check(prog, run):
     seen = {}
     seen_open = {}
     counts = {"R1": 0, "R2": 0, "R3": 0}
+    r6 = 0
     how_counts = {}
     for (p, bb, kind, frm, to, node, stmt) in obs:
         b = u.bodies[p]
@@ -271,6 +332,26 @@ def check(prog, run):
                 how = "L-SAMPLESIZE: length of a queued sample's payload; every push onto a sample queue is dominated by a `len > u32::MAX -> Err` guard"
         else:
             how = None      # float -> int: needs an explicit range guard; the engine has no float facts
+        if how and kind == "cast":
+            clips = [c for c in clip_terms(e) if c[2] is not None]
+            if clips:
+                e2 = e
+                for (_d, t, inner) in clips:
+                    e2 = _subst(e2, t, inner)
+                iv2 = cx.interval(e2)
+                noop = bool(iv2 and rt[0] <= iv2[0] and iv2[1] <= rt[1])
+                if not noop:
+                    li2 = cx.lin(e2)
+                    noop = cx.prove_le0(li2 - A.Lin(rt[1]), bb, entry=True)[0] and cx.prove_le0(A.Lin(rt[0]) - li2, bb, entry=True)[0]
+                r6 += 1
+                ck = "clip %s then cast %s->%s %s" % ("+".join(sorted(set(c[0] for c in clips))), frm, to, mir.site_free_desc(b, sym.show(e))[:100])
+                if noop:
+                    run.ok("R6", ck, "the clip is a no-op: the unclipped operand is already inside [%d, %d]" % rt, loc)
+                else:
+                    seen_open[ck] = seen_open.get(ck, 0) + 1
+                    ck += " #%d" % seen_open[ck] if seen_open[ck] > 1 else ""
+                    run.bad("R6", ck, "in %s: `%s as %s` fits only because the operand is clipped by `%s`; an out-of-range input is written clipped instead of being rejected" % (_kname(p), sym.show(e)[:70], to, clips[0][0]), loc)
+                    continue
         if how:
             how_counts[how.split(" ")[0]] = how_counts.get(how.split(" ")[0], 0) + 1
             run.ok(rule, key, how, loc)
@@ -279,6 +360,59 @@ def check(prog, run):
             seen_open[sk] = seen_open.get(sk, 0) + 1
             key = sk + (" #%d" % seen_open[sk] if seen_open[sk] > 1 else "")
             run.bad(rule, key, "in %s: `%s as %s` (from %s) can lose value bits: no interval or dominating guard keeps the operand inside [%d, %d]" % (_kname(p), sym.show(e)[:70], to, frm, rt[0], rt[1]), loc)
+    # R6 (b): clipped values serialised by to_be_bytes / stored into sample records; (c) integer try_from whose failure is swallowed
+    structs, fields = sample_record_fields(u)
+    for p in sorted(reach):
+        b = u.bodies[p]
+        if b["in_test_cfg"]:
+            continue
+        kn = _kname(p)
+        sinks = []
+        live = mir.live_blocks(b)
+        for bb_, tt, name, info in mir.calls(b):
+            last = mir.norm(name).split("::")[-1] if name else ""
+            if last in ("to_be_bytes", "to_le_bytes") and tt["args"]:
+                sinks.append(("serialised by %s" % last, sym.expr(b, tt["args"][0]), mir.loc_of(tt)))
+            ci = (tt["func"].get("callee") or {}) if isinstance(tt.get("func"), dict) else {}
+            if last in ("try_from", "try_into") and str(ci.get("self_ty", "")) in A.INT_RANGE and ci.get("substs") and all(x in A.INT_RANGE for x in ci["substs"][:2]):
+                r6 += 1
+                d = tt["dest"]["l"]
+                users = [mir.norm(n2).split("::")[-1] for _b2, t2, n2, _i2 in mir.calls(b) if n2 and any(a_.get("k") in ("copy", "move") and a_["place"]["l"] == d and not a_["place"]["p"] for a_ in t2["args"])]
+                swallow = [x for x in users if x in ("unwrap_or", "unwrap_or_default", "unwrap_or_else", "ok", "map_or", "map_or_else", "is_ok", "is_err")]
+                tk = "%s integer %s %s" % (kn, last, sym.show(sym.expr(b, tt["args"][0]))[:60])
+                if swallow:
+                    run.bad("R6", tk, "the failure of the integer conversion is swallowed by `%s`: an out-of-range value is replaced, not rejected" % swallow[0], mir.loc_of(tt))
+                else:
+                    run.ok("R6", tk, "conversion failure is not replaced by a default (consumers: %s)" % (", ".join(users) or "branch/match"), mir.loc_of(tt))
+        for blk in b["blocks"]:
+            if blk["cleanup"] or blk["i"] not in live:
+                continue
+            for st_ in blk["stmts"]:
+                if st_["k"] != "assign":
+                    continue
+                rv = st_["rv"]
+                pl = st_["place"]
+                fld = [proj for proj in pl["p"] if proj.get("k") == "field"]
+                fname = None
+                if fld:
+                    fname = mir.proj_key(fld[-1])
+                if rv["k"] == "aggregate" and str(rv.get("name", rv.get("adt", ""))).split("::")[-1] in structs:
+                    sinks.append(("stored in a %s record" % str(rv.get("name", rv.get("adt", ""))).split("::")[-1], sym.expr_rv(b, rv), mir.loc_of(st_)))
+                elif fname in fields and any(e_["k"] == "deref" for e_ in pl["p"]):
+                    sinks.append(("stored in sample-record field `%s`" % fname, sym.expr_rv(b, rv), mir.loc_of(st_)))
+        for what, ex, loc in sinks:
+            for (d_, t, inner) in clip_terms(ex):
+                r6 += 1
+                ck = "%s clip %s %s" % (kn, d_, what)
+                seen[ck] = seen.get(ck, 0) + 1
+                ck += " #%d" % seen[ck] if seen[ck] > 1 else ""
+                if mir.norm(p) in R6_NOT_A_FIELD or kn in R6_NOT_A_FIELD:
+                    run.ok("R6", ck, "not a numeric container field: " + R6_NOT_A_FIELD.get(kn, R6_NOT_A_FIELD.get(mir.norm(p), "")), loc)
+                else:
+                    run.bad("R6", ck, "in %s a value clipped by `%s` (`%s`) is %s: an out-of-range value is written clipped instead of being rejected" % (kn, d_, sym.show(t)[:80], what), loc)
+    counts["R6"] = r6
+    run.extra["sample_record_structs"] = sorted(structs)
+    run.floor("R6", r6, 7, "clipping operations on the way into a field (cast operands, to_be_bytes, sample records)")
     run.extra["inventory"] = counts
     run.extra["discharge"] = how_counts
     run.floor("R1", counts["R1"], 25, "narrowing integer casts")
